@@ -14,21 +14,64 @@ from .. import codec, real, cases, ports, api
 from ..lean import Driver
 
 
-def fresh_like(case, v):
-    """a fresh instance with the schema and configuration the used instance has now"""
+def fresh_like(case, v, ops=()):
+    """a fresh instance with the configuration and the schema the used instance was *given* last (the constructor's,
+    or the last accepted per-call schema) — not a copy of what the used instance holds now, which a defect
+    may have altered"""
     cls = real.cls_of(case)
     cfg = copy.deepcopy(case.get('cfg', {}))
-    schema = None if v.schema is None else copy.deepcopy(dict(v.schema))
-    return cls(schema, **cfg)
+    schema = case['schema']
+    for op in ops:
+        if op.get('schema_raw') is not None and op.get('schema_acc') is not None:
+            schema = op['schema_raw']
+    return cls(copy.deepcopy(schema), **cfg)
 
 
-def one(ctx, drv, i, prof, case, hist_len):
+def directed(ctx, case, g):
+    """short fixed histories around the per-call state: update then no update, a rejected call then a normal one,
+    normalization then none — the probe must behave as on a fresh instance"""
+    full = g.document(case['schema'], extra=0.0, missing=0.0)
+    part = g.document(case['schema'], extra=0.0, missing=0.7)
+    pats = [
+        [dict(op='validate', doc=full, update=True, normalize=False), dict(op='validate', doc={}, update=False, normalize=False)],
+        [dict(op='validate', doc=full, update=True, normalize=True), dict(op='validate', doc=part, update=False, normalize=True)],
+        [dict(op='validate', doc=part, update=False, normalize=True), dict(op='normalized', doc=full, always=True),
+         dict(op='validate', doc=part, update=True, normalize=False)],
+        [dict(op='validate', doc=5, update=False, normalize=True), dict(op='validated', doc=part, update=False, normalize=True, always=False)],
+    ]
+    for ops in pats:
+        try:
+            v = real.make_validator(case)
+            for op in ops[:-1]:
+                api.run_real_op(v, op)
+            r = api.run_real_op(v, ops[-1])
+            o = api.observe_real(v)
+            o['ret'] = r['ret']
+            f = fresh_like(case, v, ())
+            rf = api.run_real_op(f, ops[-1])
+            of = api.observe_real(f)
+            of['ret'] = rf['ret']
+        except Exception as e:
+            ctx.dist('skipped', 'directed history: ' + type(e).__name__)
+            continue
+        ctx.dist('directed_histories', len(ops))
+        if of != o:
+            jc = dict(real.enc_case({k: case[k] for k in ('schema', 'cfg', 'cls', 'seed', 'index', 'profile') if k in case}),
+                      ops=[{k: (codec.enc_val(x) if k == 'doc' else x) for k, x in op.items()} for op in ops])
+            ctx.fail('C07 oracle: probe on the used instance differs from the same call on a fresh instance', jc,
+                     detail={'used': repr(o)[:1500], 'fresh': repr(of)[:1500], 'history': 'directed'})
+            return
+
+
+def one(ctx, drv, i, prof, case, hist_len, g=None):
     rng = random.Random(ctx.seed * 31 + i)
     try:
         v = real.make_validator(case)
     except Exception:
         ctx.dist('skipped', 'schema not accepted')
         return
+    if g is not None:
+        directed(ctx, case, g)
     case = dict(case, schema_acc=dict(v.schema))
     ops = api.gen_ops(rng, case, rng.randint(1, hist_len))
     jcase = dict(real.enc_case({k: case[k] for k in ('schema', 'cfg', 'cls', 'seed', 'index', 'profile') if k in case}),
@@ -55,7 +98,7 @@ def one(ctx, drv, i, prof, case, hist_len):
         v2 = real.make_validator(case)
         for op in ops[:-1]:
             api.run_real_op(v2, op)
-        f = fresh_like(case, v2)
+        f = fresh_like(case, v2, ops[:-1])
         if probe['op'] == 'errors':
             pass   # reading errors depends on the last processing by definition
         else:
@@ -105,7 +148,7 @@ def run(ctx, n):
     profiles = ['mixed', 'normalize', 'validate', 'of']
     with Driver() as drv:
         for i, prof, case, g in cases.stream(ctx.seed, n, profiles):
-            one(ctx, drv, i, prof, case, hist)
+            one(ctx, drv, i, prof, case, hist, g)
 
 
 def search(ctx, n):
